@@ -322,6 +322,24 @@ func (v *visitor) call(x *ast.CallExpr) {
 		fe.ins(x.Args[1].Pos(), "simrt.TimerFunc(")
 		fe.insEnd(x.Args[1].End(), ", "+site(x.Pos())+")")
 		sites["afterfunc"]++
+	case pkg == "sync" && recv == "Once" && name == "Do" && len(x.Args) == 1:
+		sel, ok := x.Fun.(*ast.SelectorExpr)
+		if !ok {
+			return
+		}
+		rt := info.TypeOf(sel.X)
+		if rt == nil || !namedIs(rt, "sync", "Once") {
+			warn(x.Pos(), "sync.Once.Do through an embedded field: not instrumented")
+			return
+		}
+		amp := "&"
+		if isPtr(rt) {
+			amp = ""
+		}
+		fe.ins(x.Pos(), "simrt.OnceDo("+amp)
+		fe.repl(sel.X.End(), x.Lparen+1, ", ")
+		fe.insEnd(x.Rparen, ", "+site(x.Pos()))
+		sites["once"]++
 	case pkg == "sync" && (recv == "Mutex" || recv == "RWMutex" || recv == "Pool"):
 		sel, ok := x.Fun.(*ast.SelectorExpr)
 		if !ok {
